@@ -2,6 +2,7 @@
 import collections
 import collections.abc
 import json
+import sys
 import types
 
 import common
@@ -28,7 +29,9 @@ RULE = ('nested mappings of depth <= 4 and width <= 5 built from dict, OrderedDi
         'email.message.Message, xml Element, SimpleNamespace(items=..)) as the argument (TypeError) and as values '
         '(left alone), and a registered virtual Mapping subclass (accepted); keys that are instances of str '
         'subclasses (plain subclass, a wrapper overriding __str__/lower/__contains__/__eq__/__hash__, (str, Enum) and '
-        'StrEnum members) for every sanitize key, at every depth -- the same key object must be in the result. '
+        'StrEnum members) for every sanitize key, at every depth -- the same key object must be in the result; bytes '
+        'keys spelling every sanitize key; str values and Mappings whose own methods re-enter the library with other '
+        'arguments; the call made from a caller depth swept across the recursion limit (answer or RecursionError). '
         'Non-trivial: the result differs from the '
         'argument (something was masked) or TypeError was raised; distinct by the encoded tree and mask')
 TRUSTED_BASE = [
@@ -138,12 +141,42 @@ SPECIALS = {
     'class-dict': lambda: dict,
 }
 
+INNER_CALLS = [0]
+
+
+def reenter_library():
+    """What a caller-supplied object does inside its own method: call back into the library with OTHER arguments."""
+    INNER_CALLS[0] += 1
+    st = gen_mask.load_strutils()
+    st.mask_password('password=abc <token>x</token>', secret='<inner>')
+    st.mask_dict_password({'password': 'x', 'n': {'u': 'token=abc'}}, secret='<inner2>')
+
+
+class ReentrantStr(str):
+    """A str value whose __str__ / __repr__ / __format__ re-enter the library before giving its own text
+    (mask_dict_password hands str values to mask_password, which starts with str(message))."""
+
+    def __str__(self):
+        reenter_library()
+        return str.__str__(self)
+
+    def __repr__(self):
+        reenter_library()
+        return str.__repr__(self)
+
+    def __format__(self, spec):
+        reenter_library()
+        return str.__format__(str.__str__(self), spec)
+
+
 MAPPING_KINDS = ['dict', 'dict', 'dict', 'ordered', 'default', 'user', 'proxy', 'frozen', 'virtual']
 
 
 def make_mapping(rng, items, kind=None):
-    kind = kind or rng.choice(MAPPING_KINDS)
+    kind = kind or (rng.choice(MAPPING_KINDS) if rng.random() > 0.04 else 'reentrant')
     d = dict(items)
+    if kind == 'reentrant':
+        return ReentrantMap(d)
     if kind == 'virtual':
         return VirtualMap(d)
     if kind == 'dict':
@@ -159,6 +192,34 @@ def make_mapping(rng, items, kind=None):
     if kind == 'proxy':
         return types.MappingProxyType(d)
     return FrozenMap(d)
+
+
+def _is_bytes(x):
+    return isinstance(x, (bytes, bytearray))
+
+
+def keys_collide(a, b):
+    """May the two keys not live in one dict of a generated argument?  Equal keys, and -- never comparing bytes with
+    str, which is an error under `python -bb` and would be raised by dict itself, since hash(b'x') == hash('x') -- a
+    bytes key and a str key with the same ASCII text."""
+    if _is_bytes(a) != _is_bytes(b):
+        if isinstance(a, str) or isinstance(b, str):
+            t, y = (a, b) if isinstance(a, str) else (b, a)
+            return bytes(y) == str.__str__(t).encode('utf-8', 'surrogatepass')
+        return False
+    return a == b
+
+
+def gen_nonstr_key(rng):
+    """int / float / tuple / None / frozenset keys and bytes keys; one bytes key in three is the ASCII encoding of
+    a sanitize key in some letter case (b'password', b'TOKEN'): not a string key, so never a reason to mask."""
+    x = rng.random()
+    if x < 0.25:
+        key = rng.choice(C04.all_keys())
+        return C04.case_form(rng, key, rng.choice(['lower', 'lower', 'upper', 'cap'])).encode('ascii')
+    if x < 0.32:
+        return rng.choice(C04.all_keys())[:-1].encode('ascii') + rng.choice([b'', b'_', b'2'])
+    return rng.choice(NONSTR_KEYS)
 
 
 class PlainSub(str):
@@ -216,6 +277,14 @@ def subkey_kind(k):
     if isinstance(k, enum.Enum):
         return 'str-enum'
     return 'plain-sub'
+
+
+class ReentrantMap(FrozenMap):
+    """A Mapping whose iteration re-enters the library with other arguments (its content is what it was given)."""
+
+    def __iter__(self):
+        reenter_library()
+        return iter(self._d)
 
 
 def gen_str_key(rng):
@@ -299,7 +368,28 @@ def subkey_grid(rng, passes):
                 yield inner
 
 
+def byteskey_grid(rng):
+    """Every sanitize key as a BYTES key (exact lower-case ASCII, and other cases), holding str / number / None
+    values, alone and next to str keys, at depth 1..3: bytes keys are not string keys -- values under them are
+    only passed through mask_password (str) or left alone."""
+    for i, key in enumerate(C04.all_keys()):
+        b = key.encode('ascii')
+        inner = make_mapping(rng, [(b, rng.choice(['s3cr3t', 'user ' + key + '=abc', 5, None])),
+                                   (key.upper().encode('ascii'), 'plain'), ('user', 'bob'),
+                                   ('x_' + key, 'masked-by-str-key')])
+        for lvl in range(i % 3):
+            inner = make_mapping(rng, [(b, inner), ('id', lvl)])
+        yield inner
+
+
 def gen_leaf(rng):
+    v = gen_leaf_plain(rng)
+    if type(v) is str and rng.random() < 0.05:
+        return ReentrantStr(v)
+    return v
+
+
+def gen_leaf_plain(rng):
     if rng.random() < 0.12:
         keys = C04.all_keys()
         key = rng.choice(sorted(keys, key=len)[:6]) if rng.random() < 0.5 else rng.choice(keys)
@@ -343,8 +433,8 @@ def gen_tree(rng, depth, width, pool=None):
     n = rng.randrange(0, width + 1)
     items, used = [], []
     for _ in range(n):
-        k = gen_str_key(rng) if rng.random() < 0.75 else rng.choice(NONSTR_KEYS)
-        if any(type(k) is type(u) and k == u or k == u for u in used):
+        k = gen_str_key(rng) if rng.random() < 0.75 else gen_nonstr_key(rng)
+        if any(keys_collide(k, u) for u in used):
             continue
         used.append(k)
         x = rng.random()
@@ -413,8 +503,8 @@ class Enc:
         if isinstance(v, collections.abc.Mapping):
             items = list(v.items())
             return ' '.join(['M:%d' % len(items)] + [self.key(k) + ' ' + self.val(x) for k, x in items])
-        if type(v) is str:
-            return 'S:' + hexs(v)
+        if type(v) is str or isinstance(v, ReentrantStr):
+            return 'S:' + hexs(str.__str__(v))           # the text; a ReentrantStr's own methods only re-enter
         return 'O:%d' % self.oid(v)
 
     # canonical form of the implementation's result, in the same syntax
@@ -422,8 +512,8 @@ class Enc:
         if isinstance(k, str):
             return 'K:' + hexs(str.__str__(k))
         for i, o in enumerate(self.keys):
-            if o is k:
-                return 'X:%d' % i
+            if o is k or (type(o) is type(k) and o == k):      # the same rule as kid(); object identity of keys is
+                return 'X:%d' % i                               # checked separately by key_objects_kept
         return 'X:?%r' % (k,)
 
     def out_val(self, v, inputs):
@@ -482,14 +572,20 @@ def key_objects_kept(arg, res):
     return True
 
 
-def run_impl(arg, mask):
+def run_impl(arg, mask, below=None):
     """-> (canonical result, mutated?)"""
     enc = Enc()
     line_tree = enc.val(arg)
     before = snapshot(arg)
     inputs = containers(arg)
+    fn = gen_mask.load_strutils().mask_dict_password
     try:
-        res = gen_mask.load_strutils().mask_dict_password(arg, mask)
+        if below is None:
+            res = fn(arg, mask)
+        else:
+            kind, res = at_depth(below, lambda: fn(arg, mask))
+            if kind == 'rec':
+                raise RecursionError
     except Exception as e:
         out = type(e).__name__
     else:
@@ -604,43 +700,54 @@ def oracle_sequence(case):
     """Property oracle on a stored sequence (decoded trees), in order; -> (index, why) of the first failing call."""
     for i, st in enumerate(case['steps']):
         arg = case_arg(st)
-        why = oracle(arg, st['mask'])
+        why = oracle(arg, st['mask'], st.get('below'))
         if why:
             return i, why
     return None
 
 
+FRESH_BUDGET = [60.0]          # seconds of fresh-interpreter work left in this run
+
+
 def fresh_process_fails(case):
-    """Does the stored sequence fail the oracle in a *fresh* interpreter (nothing remembered from this run)?"""
+    """The oracle's verdict on the stored sequence in a FRESH interpreter in the same ambient configuration (nothing
+    remembered from this run): [index, why] | None (passes there) | 'unknown' (could not be run / budget used up)."""
     import os
     import subprocess
-    import sys
-    code = ('import sys, json; sys.path.insert(0, %r); import common; from props import C08; '
-            'r = C08.oracle_sequence(json.load(sys.stdin)); print(json.dumps(r))' % os.path.dirname(os.path.dirname(__file__)))
+    import time
+    import ambient
+    if FRESH_BUDGET[0] <= 0:
+        return 'unknown'
+    code = ('import sys, json\nsys.path.insert(0, %r)\n' % os.path.dirname(os.path.dirname(__file__))
+            + ambient.setup_snippet('import common\nfrom props import C08')
+            + 'r = C08.oracle_sequence(json.load(sys.stdin))\nprint(json.dumps(r))\n')
+    t0 = time.time()
     try:
-        p = subprocess.run([sys.executable, '-c', code], input=json.dumps(case).encode(), stdout=subprocess.PIPE,
-                           stderr=subprocess.PIPE, timeout=120)
+        p = subprocess.run(ambient.fresh_interpreter_argv() + ['-c', code], input=json.dumps(case).encode(),
+                           stdout=subprocess.PIPE, stderr=subprocess.PIPE, timeout=max(5, min(60, FRESH_BUDGET[0])))
         line = [l for l in p.stdout.decode().splitlines() if l.strip()][-1]
         return json.loads(line)
     except Exception:
-        return None
+        return 'unknown'
+    finally:
+        FRESH_BUDGET[0] -= time.time() - t0
 
 
 def shrink_sequence(case):
     """Fewest calls that still fail in a fresh process (each candidate is run in its own interpreter)."""
-    if not fresh_process_fails(case):
-        return case                     # only reproducible with this run's history: keep everything
+    first = fresh_process_fails(case)
+    if first is None:
+        return dict(case, note='fails only after the earlier calls of this run')
+    if first == 'unknown':
+        return case
     steps = case['steps']
-    import time
-    deadline = time.time() + 45            # wall-clock budget for the fresh-interpreter runs
 
     def still(sub):
-        if time.time() > deadline:
-            return False
-        return bool(fresh_process_fails({'kind': 'seq', 'steps': sub}))
+        r = fresh_process_fails({'kind': 'seq', 'steps': sub})
+        return isinstance(r, list)
     small = common.shrink_list(steps, still, max_steps=25)
     r = fresh_process_fails({'kind': 'seq', 'steps': small})
-    return {'kind': 'seq', 'steps': small, 'failing_step': r[0] if r else len(small) - 1}
+    return {'kind': 'seq', 'steps': small, 'failing_step': r[0] if isinstance(r, list) else len(small) - 1}
 
 
 def correspondence(ctx):
@@ -654,6 +761,7 @@ def correspondence(ctx):
     fixed += [SPECIALS[n]() for n in sorted(SPECIALS)] + [{'v': SPECIALS[n](), 'password': SPECIALS[n]()} for n in sorted(SPECIALS)]
     fixed += [VirtualMap({'password': 'x', 'n': VirtualMap({'user': 'token=abc'})})]
     fixed += list(subkey_grid(rng, 1 if ctx.quick else 6))
+    fixed += list(byteskey_grid(rng))
     fixed += [gen_dag(rng) for _ in range(60 if ctx.quick else 1500)]
     for i in range(n + len(fixed)):
         arg = fixed[i] if i < len(fixed) else gen_case(rng, ctx.quick)
@@ -680,6 +788,21 @@ def correspondence(ctx):
         elif out != rep:
             res.append(Disagreement({'tree': tree, 'arg': safe_dump(arg), 'mask': mask, 'repr': repr(arg)[:500]},
                                     out, rep))
+    # caller stack depth swept across the recursion limit: the answer is the model's or RecursionError, nothing else
+    deep, dlines = [], []
+    for arg in deep_args(rng, 3 if ctx.quick else 12):
+        for below in BELOW_SWEEP:
+            tree, out, mutated = run_impl(arg, '***', below)
+            deep.append((arg, below, tree, out, mutated))
+            dlines.append(req('dict', tree, hexs('***')))
+    for (arg, below, tree, out, mutated), rep in zip(deep, ctx.driver.ask_many(dlines)):
+        ctx.evaluations += 1
+        ctx.count('depth/' + ('RecursionError' if out == 'RecursionError' else 'answered'))
+        case = {'tree': tree, 'arg': safe_dump(arg), 'mask': '***', 'below': below, 'repr': repr(arg)[:500]}
+        if mutated:
+            res.append(Disagreement(case, 'ARGUMENT MODIFIED; result ' + out, rep, where='non-mutation'))
+        elif out != 'RecursionError' and out != rep:
+            res.append(Disagreement(case, '%d frames below the recursion limit: %s' % (below, out), rep))
     # call sequences: the model is stateless, so every call of a sequence is compared with the model's answer
     seqs, lines = [], []
     for _ in range(60 if ctx.quick else 2500):
@@ -720,6 +843,8 @@ def spec(d, mask, mp):
             out.append((k, ('map', spec(v, mask, mp))))
         elif isinstance(k, str) and any(sk in str.lower(k) for sk in C04.SPEC_KEYS):     # any str instance
             out.append((k, ('is', mask)))
+        elif isinstance(v, ReentrantStr):
+            out.append((k, ('eq', mp(str.__str__(v), mask))))     # expected from the plain text: no reentrancy here
         elif isinstance(v, str):
             out.append((k, ('eq', mp(v, mask))))
         else:
@@ -748,7 +873,48 @@ def conforms(res, want):
     return None
 
 
-def oracle(arg, mask):
+def deep_args(rng, n):
+    """Ordinary depth-3/4 arguments for the caller-depth sweep (secrets under sanitize keys and inside strings at the
+    lowest level, several Mapping types)."""
+    out = [{'a': {'b': {'c': {'password': 'p4', 'note': 'token=abc', 'd': {'secret': 's', 'u': 'user'}}}},
+            'auth_token': 't', 'msg': 'password=abc'}]
+    while len(out) < n:
+        t = gen_tree(rng, 4, rng.choice([2, 3]))
+        if any(isinstance(v, collections.abc.Mapping) for v in t.values()):
+            out.append(t)
+    return out
+
+
+def frames_in_use():
+    n, f = 0, sys._getframe()
+    while f is not None:
+        n += 1
+        f = f.f_back
+    return n
+
+
+def at_depth(below, fn):
+    """Call fn() from a Python frame that is `below` frames under sys.getrecursionlimit() (the limit itself is left
+    as the process has it).  -> ('ok', result) | ('rec', None) when RecursionError came out."""
+    def dive(k):
+        if k <= 0:
+            try:
+                return ('ok', fn())
+            except RecursionError:
+                return ('rec', None)
+        return dive(k - 1)
+    try:
+        return dive(sys.getrecursionlimit() - below - frames_in_use() - 1)
+    except RecursionError:
+        return ('rec', None)
+
+
+BELOW_SWEEP = list(range(1, 41))        # caller depth swept across the recursion limit
+
+
+def oracle(arg, mask, below=None):
+    """`below`: make the call from a frame that many frames under the recursion limit; then the only acceptable
+    outcomes are the ordinary one (fully masked independent copy / TypeError) and RecursionError."""
     s = gen_mask.load_strutils()
     before = snapshot(arg)
     inputs = containers(arg)
@@ -756,10 +922,21 @@ def oracle(arg, mask):
         want = spec(arg, mask, s.mask_password)
     except TypeError:
         want = TypeError
+
+    def call():
+        try:
+            return s.mask_dict_password(arg, mask)
+        except TypeError:
+            return TypeError
     try:
-        res = s.mask_dict_password(arg, mask)
-    except TypeError:
-        res = TypeError
+        if below is None:
+            res = call()
+        else:
+            kind, res = at_depth(below, call)
+            if kind == 'rec':
+                if snapshot(arg) != before:
+                    return 'mutated: the argument was modified (call ended in RecursionError)'
+                return None
     except Exception as e:
         return 'raised: %s' % type(e).__name__
     if snapshot(arg) != before:
@@ -777,7 +954,8 @@ def oracle(arg, mask):
 
 
 _KIND_OF = {dict: 'dict', collections.OrderedDict: 'ordered', collections.defaultdict: 'default',
-            collections.UserDict: 'user', types.MappingProxyType: 'proxy', FrozenMap: 'frozen', VirtualMap: 'virtual'}
+            collections.UserDict: 'user', types.MappingProxyType: 'proxy', FrozenMap: 'frozen', VirtualMap: 'virtual',
+            ReentrantMap: 'reentrant'}
 
 
 def special_name(v):
@@ -803,6 +981,8 @@ def dump_arg(arg):
             return {'s': k}
         if isinstance(k, str):
             return {'s': str.__str__(k), 'sub': subkey_kind(k)}
+        if type(k) is bytes:
+            return {'b': k.hex()}
         for i, o in enumerate(NONSTR_KEYS):
             if type(o) is type(k) and o == k:
                 return {'nk': i}
@@ -816,6 +996,8 @@ def dump_arg(arg):
             return {'id': n, 'type': _KIND_OF.get(type(v), 'dict'), 'items': [[key(k), val(x)] for k, x in v.items()]}
         if type(v) is str:
             return {'s': v}
+        if isinstance(v, ReentrantStr):
+            return {'s': str.__str__(v), 'reenter': True}
         name = special_name(v)
         if name:
             return {'special': name}
@@ -839,6 +1021,8 @@ def load_arg(j):
     def key(k):
         if 'sub' in k:
             return make_subkey(k['sub'], k['s'])
+        if 'b' in k:
+            return bytes.fromhex(k['b'])
         if 's' in k:
             return k['s']
         if 'nk' in k:
@@ -853,7 +1037,7 @@ def load_arg(j):
             nodes[v['id']] = m = make_mapping(None, items, v['type'])
             return m
         if 's' in v:
-            return v['s']
+            return ReentrantStr(v['s']) if v.get('reenter') else v['s']
         if 'special' in v:
             return SPECIALS[v['special']]()
         if 'list' in v:
@@ -932,7 +1116,7 @@ def search(ctx, seeds, full=False):
         if s.get('kind') == 'seq':
             continue
         try:
-            todo.append((case_arg(s), s['mask']))
+            todo.append((case_arg(s), s['mask']))      # (a stored 'below' is re-swept by the depth family)
         except Exception:
             pass
     n = (20000 if full else 1500) if ctx.quick else (150000 if full else 20000)
@@ -948,6 +1132,8 @@ def search(ctx, seeds, full=False):
     todo.append((VirtualMap({'password': 'x', 'n': VirtualMap({'user': 'token=abc'})}), '***'))
     for t in subkey_grid(rng, (3 if full else 1) if ctx.quick else 6):
         todo.append((t, C04.gen_mask_text(rng)))
+    for t in byteskey_grid(rng):
+        todo.append((t, '***'))
     for _ in range((400 if full else 80) if ctx.quick else 2000):
         todo.append((gen_dag(rng), C04.gen_mask_text(rng)))
     for _ in range(n):
@@ -1003,18 +1189,22 @@ def search(ctx, seeds, full=False):
                 break
     if len(fails) >= 5:
         return fails
-    for arg, mask in todo:
+    todo = [t + (None,) for t in todo]
+    for arg in deep_args(rng, (6 if full else 2) if ctx.quick else 10):
+        for below in BELOW_SWEEP:
+            todo.append((arg, '***', below))
+    for arg, mask, below in todo:
         ctx.evaluations += 1
-        why = oracle(arg, mask)
+        why = oracle(arg, mask, below)
         if why:
             kindword = why.split(':')[0]
             try:
                 one = {'kind': 'seq', 'steps': [{'tree': Enc().val(arg), 'arg': safe_dump(arg), 'mask': mask,
-                                                 'repr': repr(arg)[:400]}]}
+                                                 'below': below, 'repr': repr(arg)[:400]}]}
                 fresh = fresh_process_fails(one)
             except Exception:
-                fresh = True
-            if not fresh:
+                fresh = 'unknown'
+            if fresh is None:
                 # fails here but not in a fresh interpreter: the result depends on earlier calls of this run
                 fails.append(Failure(dict(one, failing_step=0, note='fails only after the earlier calls of this run'),
                                      {'kind': 'history-dependent', 'what': why}))
@@ -1024,17 +1214,21 @@ def search(ctx, seeds, full=False):
             small = arg
             if isinstance(arg, collections.abc.Mapping) and type(arg) is not dict:
                 plain = dict(arg.items())               # same value objects, so sharing is kept
-                w = oracle(plain, mask)
+                w = oracle(plain, mask, below)
                 if w and w.split(':')[0] == kindword:
                     small = plain
-            if type(small) is dict:
+            if type(small) is dict and below is None:
                 small = shrink_arg(small, mask, kindword)
             try:
                 tree = Enc().val(small)
             except Exception:
                 tree = None
-            fails.append(Failure({'repr': repr(small)[:1500], 'tree': tree, 'arg': safe_dump(small), 'mask': mask},
-                                 {'kind': kindword, 'what': oracle(small, mask)}))
+            case = {'repr': repr(small)[:1500], 'tree': tree, 'arg': safe_dump(small), 'mask': mask}
+            what = oracle(small, mask, below)
+            if below is not None:
+                case['below'] = below
+                what = 'called %d frames below sys.getrecursionlimit(): %s' % (below, what)
+            fails.append(Failure(case, {'kind': kindword, 'what': what}))
             if len(fails) >= 5:
                 break
     return fails
@@ -1061,10 +1255,18 @@ def replay(ctx, payload):
     print('argument (repr):', case.get('repr'))
     arg = case_arg(case)
     mask = case.get('mask', '***')
-    tree, out, mutated = run_impl(arg, mask)
+    below = case.get('below')
+    if below is not None:
+        # the stored depth first, then the whole sweep (the caller's own frame count differs between entry points)
+        for b in [below] + [x for x in BELOW_SWEEP if x != below]:
+            if oracle(arg, mask, b):
+                below = b
+                break
+        print('call made %d frames below sys.getrecursionlimit() = %d' % (below, sys.getrecursionlimit()))
+    tree, out, mutated = run_impl(arg, mask, below)
     print('implementation :', out, '(ARGUMENT MODIFIED)' if mutated else '')
-    print('model          :', ctx.driver.ask(req('dict', tree, hexs(mask))))
-    why = oracle(arg, mask)
+    print('model          :', ctx.driver.ask(req('dict', tree, hexs(mask))), '(or RecursionError)' if below else '')
+    why = oracle(arg, mask, below)
     print('property oracle on the implementation:', why)
     return 1 if why else 0
 
